@@ -5,6 +5,7 @@ import (
 	"fmt"
 	"os"
 	"os/exec"
+	"path/filepath"
 	"regexp"
 	"strings"
 	"testing"
@@ -260,6 +261,16 @@ func checkC10(c C10Case) Verdict {
 		}
 	}
 
+	// (1a) the same source loaded from a file gives the same message
+	{
+		cbf, ferr, fpn := compileDir(filepath.Join(outDir(), "c10-dir-"+shard()), names, srcs, base.Globals)
+		if ferr != nil || fpn != nil {
+			return bad(true, "the same source does not compile when it is loaded from a file: %v %v\n%s", ferr, fpn, src)
+		}
+		if fi := msgInfos(cbf); len(fi) != 1 || fi[0].id != m0.id || strings.Join(fi[0].names, ",") != strings.Join(m0.names, ",") {
+			return bad(true, "loaded from a file the message gets another id or other names: %v vs %v\n%s", fi, m0, src)
+		}
+	}
 	// (1) determinism in this process
 	reps := scale(15, 40)
 	for i := 0; i < reps; i++ {
